@@ -16,7 +16,11 @@ import os
 import random
 
 PROPERTY = "C13"
-SYM = "ACGT"
+# letter of a symbol code of the specification (AnnotSliceOps "nucleotide symbols"): codes 0..3 are
+# the unambiguous alphabet, 0..14 the ambiguous (IUPAC) one.  Sequences are always built from
+# LETTERS with the constructor's default, so the alphabet is unambiguous iff all codes are <= 3.
+SYM = "ACGTRYWSMKHBVDN"
+NSYM = len(SYM)
 _DEFECTS = ("ML", "MR", "BL", "BR", "UNK", "BTW")
 _G = None
 
@@ -236,6 +240,7 @@ def exec_cases(item):
         fh.seek(item["beg"])
         text = fh.read(item["end"] - item["beg"]).decode()
     mism, n, ops, ocs, nontriv = [], 0, {}, {}, 0
+    symcov = {"read_rev": set(), "written_rev": set(), "revcomp": set()}
     cur = []
 
     def flush():
@@ -256,6 +261,7 @@ def exec_cases(item):
         if (canon_ann(r["ann"]) != canon_ann(pre["ann"]) or r["seq"] != pre["seq"]
                 or r["start"] != pre["start"] or r["out"] not in ([], {})):
             nontriv += 1
+        _symbol_coverage(symcov, c["op"], c["a"], pre)
         progress({"op": c["op"], "a": c["a"], "pre": pre})
         _o, obs = run_call(c["kind"], pre, c["op"], c["a"])
         bad = compare(c["op"], r, obs)
@@ -269,7 +275,19 @@ def exec_cases(item):
         else:
             cur.append(line)
     flush()
-    return {"mismatch": mism, "n": n, "ops": ops, "ocs": ocs, "nontrivial": nontriv}
+    return {"mismatch": mism, "n": n, "ops": ops, "ocs": ocs, "nontrivial": nontriv,
+            "symcov": {k: sorted(v) for k, v in symcov.items()}}
+
+
+def _symbol_coverage(cov, op, a, pre):
+    """Which symbol codes took part in a complement (measured, for the vacuity guard)."""
+    if op == "revcomp":
+        cov["revcomp"].update(pre["seq"])
+    elif op in ("getfeat", "setfeat") and all(x["strand"] == "-" for x in a[0]["locs"]):
+        if op == "getfeat":
+            cov["read_rev"].update(pre["seq"][p - pre["start"]] for p in _bases(a[0]))
+        else:
+            cov["written_rev"].update(a[1])
 
 
 def _graph():
@@ -409,10 +427,17 @@ def gen_trace(item):
         n = rng.randint(0, item["maxlen"])
         start = rng.choice([1, 1, 2, 5, 17])
         lo, hi = start, start + n - 1
-        seq = [rng.randrange(4) for _ in range(n)]
+        # half of the histories run on the ambiguous (IUPAC) alphabet
+        nsym = NSYM if rng.random() < 0.5 else 4
+        seq = [rng.randrange(nsym) for _ in range(n)]
     else:
         n, start, seq = 0, 0, []
         lo, hi = -30, 60
+
+    def wsym(cur):
+        """a symbol that may be written into the current sequence (Dom_Write / Dom_WriteSym:
+        ambiguous codes only where the sequence visibly has the ambiguous alphabet)"""
+        return rng.randrange(NSYM if any(c > 3 for c in cur["seq"]) else 4)
     feats = [_rand_feature(rng, lo, hi, key()) for _ in range(rng.randint(0, 4))] if hi >= lo else []
     events = []
     obj = None
@@ -457,7 +482,7 @@ def gen_trace(item):
                 if op == "setfeat":
                     if len({x["strand"] for x in f["locs"]}) != 1:
                         continue
-                    a = [f, [rng.randrange(4) for _ in _bases(f)]]
+                    a = [f, [wsym(cur) for _ in _bases(f)]]
                 else:
                     a = [f]
             elif op == "revcomp":
@@ -466,13 +491,13 @@ def gen_trace(item):
                 if hi < lo:
                     continue
                 p = rng.randint(lo, hi)
-                a = [p] if op == "getint" else [p, rng.randrange(4)]
+                a = [p] if op == "getint" else [p, wsym(cur)]
             elif op == "setslice":
                 x, y = sorted([rng.randint(lo, hi + 1), rng.randint(lo, hi + 1)])
                 ox = [] if rng.random() < 0.3 else [x]
                 oy = [] if rng.random() < 0.3 else [y]
                 w = (y if oy else hi + 1) - (x if ox else lo)
-                a = [ox, oy, [rng.randrange(4) for _ in range(w)]]
+                a = [ox, oy, [wsym(cur) for _ in range(w)]]
             elif op == "add":
                 if hi < lo:
                     continue
@@ -598,10 +623,16 @@ def run(ctx):
         "Dom_SliceInSeq: slice bounds lie in start..start+len and a <= b; a = start-1 is the documented refusal",
         "Dom_FeatIndex: a feature used as index has pairwise disjoint locations inside the sequence "
         "(biological order is undefined for overlapping locations); Dom_SetFeature: one strand, value of the covered length",
-        "symbols are the unambiguous nucleotide alphabet ACGT; qualifiers are one note per feature",
+        "symbols: both NucleotideSequence alphabets (ACGT and the 15 IUPAC codes); the complement of a code "
+        "is the code of the complemented base set; sequences are built from letters with the default "
+        "alphabet choice (unambiguous iff only ACGT occur)",
+        "Dom_Write: ambiguous symbols are only written into a sequence that currently contains an ambiguous "
+        "symbol (Sequence.__setitem__ copies raw codes without an alphabet check)",
+        "qualifiers are one note per feature",
         "cut marks are added to the defects a location already has (MISS_LEFT/MISS_RIGHT are never cleared)",
         "exhaustive model: sequence length <= 4, starts {1,3}, one feature with <= 3 locations or two "
-        "one-location features; longer inputs only through recorded traces",
+        "one-location features; ambiguous symbols: every code alone and in windows of one fixed permutation "
+        "of the 15 codes; longer inputs only through recorded traces",
         "trusted: TLC, the TLA+ value parser, the projection (iteration over Annotation, Feature.locs, "
         "Sequence.symbols, sequence_start)",
     ]
@@ -617,9 +648,12 @@ def run(ctx):
     ctx.log(f"S2a: {nstates} dumped states in {len(items)} items")
     res = helpers.run_pool(ctx, "harness.drivers.c13:exec_cases", items, stage="S2", item_timeout=120)
     ops, ocs, ncases, nontriv = {}, {}, 0, 0
+    symcov = {"read_rev": set(), "written_rev": set(), "revcomp": set()}
     for r in res:
         if not r or "crash" in r:
             continue
+        for k, v in r["symcov"].items():
+            symcov[k].update(v)
         ncases += r["n"]
         nontriv += r["nontrivial"]
         for k, v in r["ops"].items():
@@ -633,6 +667,12 @@ def run(ctx):
         raise Vacuity(f"calls never enumerated: {sorted(need - set(ops))}")
     if not {"ok", "Rejected"} <= set(ocs):
         raise Vacuity(f"outcomes not all reached: {ocs}")
+    # every symbol of both alphabets was read under a reverse-strand feature, written through one
+    # and reverse-complemented as part of a whole sequence
+    ctx.cov["s2_symbols_complemented"] = {k: len(v) for k, v in symcov.items()}
+    for k, v in symcov.items():
+        if v != set(range(NSYM)):
+            raise Vacuity(f"symbol codes never complemented in role {k}: {sorted(set(range(NSYM)) - v)}")
     ctx.exhaustive = True
     ctx.traces_validated += ncases
     ctx.evaluations += ncases
@@ -672,6 +712,10 @@ def run(ctx):
         socs[st["oc"]] = socs.get(st["oc"], 0) + 1
     if not {"ok", "Rejected"} <= set(socs):
         raise Vacuity(f"machine outcomes not all reached: {socs}")
+    namb = sum(1 for st in states if any(c > 3 for c in st["seq"]))
+    ctx.cov["machine_states_ambiguous_alphabet"] = namb
+    if namb == 0:
+        raise Vacuity("no machine state with a sequence over the ambiguous alphabet")
     ctx.cov["machine_states_per_outcome"] = socs
     paths, covered = dot.covering_paths(g, max_len=8, rng=ctx.rng)
     gfile = os.path.join(d, "graph.json")
@@ -722,7 +766,7 @@ def run(ctx):
                 return True
         for e in tr[1:]:
             if e["oc"] == "ok" and e["seq"]:
-                e["seq"][-1] = (e["seq"][-1] + 1) % 4
+                e["seq"][-1] = (e["seq"][-1] + 1) % NSYM
                 return True
         return False
 
@@ -768,6 +812,20 @@ def validate_traces(ctx, traces):
         for e in t:
             per[e["kind"] + "." + e["op"]] = per.get(e["kind"] + "." + e["op"], 0) + 1
     ctx.cov["s3_events_per_op"] = per
+    # recorded complements over the ambiguous alphabet (pre-state of the event has a code > 3)
+    amb = {"revcomp": 0, "getfeat_rev": 0, "setfeat_rev": 0}
+    for t in traces:
+        for e in t:
+            if e["oc"] != "ok" or not any(c > 3 for c in e["pre"]["seq"]):
+                continue
+            if e["op"] == "revcomp":
+                amb["revcomp"] += 1
+            elif e["op"] in ("getfeat", "setfeat") and all(x["strand"] == "-" for x in e["a"][0]["locs"]):
+                amb[e["op"] + "_rev"] += 1
+    ctx.cov["s3_ambiguous_alphabet_complements"] = amb
+    if min(amb.values()) == 0:
+        from harness.tlabind.core import Vacuity
+        raise Vacuity(f"S3 never complemented a sequence over the ambiguous alphabet: {amb}")
     ctx.nontrivial += sum(1 for t in traces if sum(1 for e in t if e["oc"] == "ok") >= 3)
     ctx.sample({"s3_events": [{k: e[k] for k in _KEEP} for e in traces[0][:2]]})
     for v in mms:
@@ -798,6 +856,6 @@ def replay(record):
 
 MANIFEST = {
     "technique": "TLA+ per-base model of Location/Feature/Annotation/AnnotatedSequence (specs/C13) model-checked by TLC; every enumerated call and every transition of the history machine executed against the real classes; recorded random histories re-computed by TLC",
-    "level_text": "TLC enumerates every single call (slice with all bound combinations incl. open and empty ones, feature read/write, reverse complement, copy, container calls) on all annotated sequences of length <=4 with starts 1 and 3 carrying one feature of <=3 locations (both strands, pre-existing defects) or two one-location features, and on bare annotations over positions -2..2; it proves on that universe that the code-shaped clipping / concatenation / mirror arithmetic equals the per-base definitions, that write-then-read returns the written bases, that reverse complement is an involution preserving feature sequences and that nested slices equal direct ones. Each enumerated (call, result) pair and every transition of a 3-call history machine is executed against the real classes; longer sequences (<=40), other starts, negative positions and 1..4 locations are covered by recorded histories that TLC re-computes event by event.",
-    "level_note": "Bounded: exhaustive only for length <=4 / <=3 locations; beyond that recorded histories. Locations of annotated sequences are assumed to lie inside the sequence, indexed features to have disjoint locations; ambiguous nucleotide symbols, protein sequences, slice steps, integer indices outside the sequence and Feature ordering are not decided. Trusted: TLC, the TLA+ value parser, the projection through the public iteration/properties.",
+    "level_text": "TLC enumerates every single call (slice with all bound combinations incl. open and empty ones, feature read/write, reverse complement, copy, container calls) on all annotated sequences of length <=4 with starts 1 and 3 carrying one feature of <=3 locations (both strands, pre-existing defects) or two one-location features, and on bare annotations over positions -2..2; the symbols range over both nucleotide alphabets (every one of the 15 IUPAC codes alone and in windows of a permutation of all codes under forward and reverse features, in assignments and in reverse_complement), the complement of a code being defined in the specification as the code of the complemented base set; it proves on that universe that the code-shaped clipping / concatenation / mirror arithmetic equals the per-base definitions, that write-then-read returns the written bases, that reverse complement is an involution preserving feature sequences and that nested slices equal direct ones. Each enumerated (call, result) pair and every transition of a 3-call history machine is executed against the real classes; longer sequences (<=40), other starts, negative positions and 1..4 locations are covered by recorded histories that TLC re-computes event by event.",
+    "level_note": "Bounded: exhaustive only for length <=4 / <=3 locations; beyond that recorded histories. Locations of annotated sequences are assumed to lie inside the sequence, indexed features to have disjoint locations; protein sequences, an ambiguous-alphabet sequence object holding only ACGT at construction, slice steps, integer indices outside the sequence and Feature ordering are not decided. Trusted: TLC, the TLA+ value parser, the projection through the public iteration/properties.",
 }
